@@ -766,22 +766,22 @@ func Run(cfg core.Config, scope core.Scope, opts Options) *core.Result {
 	if scope.Files == nil {
 		for k := range opts.CompleteExempt {
 			if !usedExempt["c:"+k] {
-				res.Brokenf("stale exemption ARGS.complete %s: no longer needed or function gone", k)
+				res.Stale("stale exemption ARGS.complete %s: no longer needed or function gone", k)
 			}
 		}
 		for k := range opts.OptionalExempt {
 			if !usedExempt["o:"+k] {
-				res.Brokenf("stale exemption ARGS.optional %s", k)
+				res.Stale("stale exemption ARGS.optional %s", k)
 			}
 		}
 		for k := range opts.Unchecked {
 			if !usedExempt["u:"+k] {
-				res.Brokenf("stale exemption Unchecked %s: function gone", k)
+				res.Stale("stale exemption Unchecked %s: function gone", k)
 			}
 		}
 		for k := range opts.LenExempt {
 			if !usedExempt["l:"+k] {
-				res.Brokenf("stale exemption ARGS.lencheck %s: no longer needed or function gone", k)
+				res.Stale("stale exemption ARGS.lencheck %s: no longer needed or function gone", k)
 			}
 		}
 	}
